@@ -28,6 +28,7 @@ def clamp(m, mn):
 
 
 def unit_fractions(twin=False):
+    from props import common as CM
     ctx = mkctx()
     fn, ex, it1, info1 = U.run_loop_isolated(MODEL, "Phreeqc::calc_ss_fractions", 1, ctx=ctx)
     r = U.new_unit("C03.calc_ss_fractions", MODEL, "Phreeqc::calc_ss_fractions", fn)
@@ -70,9 +71,49 @@ def unit_fractions(twin=False):
         ok = len(w) == 1 and w[0][1][0] is ph and w[0][2].op == "app" and w[0][2].args[0] == "call:Get_log10_fraction_x" and w[0][2].args[1] is comp
         r.add("fraction_loop.phase_record_gets_the_component's_log_fraction[path %d]" % k, DISCHARGED if ok else FAILED, "term-inspection", 0, repr(w)[:160])
     r.add("reach.paths", DISCHARGED if n >= 2 and k >= 2 else UNDECIDED, "symex", 0, "sum paths %d fraction paths %d" % (n, k), kind="vacuity")
-    from props import common as CM
     fn0 = A.find_function(MODEL, "Phreeqc::calc_ss_fractions")
     CM.check_accumulator_init(r, fn0, MODEL, CM.loop_node(fn0, 1), "n_tot", "sum_loop")
+    # per solid solution: the total handed on is the sum just formed, and the activity model is chosen by the Guggenheim parameters
+    ctx0 = mkctx(); ctx0.functional.update({"Get_a0", "Get_a1"})
+    fnx, ex0, it0, info0 = U.run_loop_isolated(MODEL, "Phreeqc::calc_ss_fractions", 0, ctx=ctx0, inner_modes={"*": "iter"})
+    nd = 0
+    for s in it0:
+        if s.status not in ("run", "cont"):
+            continue
+        nd += 1
+        ssp = U.local_of(info0, s, "ss_ptr")
+        evs = U.iter_events(s)
+        tot = [e for e in evs if e.name.endswith("Set_total_moles")]
+        okt = len(tot) == 1 and tot[0].recv is ssp and tot[0].args[0] is U.local_of(info0, s, "n_tot")
+        r.add("solid_solution.total_moles_is_the_sum_of_its_components[path %d]" % nd, DISCHARGED if okt else FAILED, "trace", 0, repr([e.args for e in tot])[:120])
+        a0 = tm.app("call:Get_a0", (ssp,), "R"); a1 = tm.app("call:Get_a1", (ssp,), "R")
+        nonideal = tm.or_(tm.not_(tm.eq(a0, tm.num(0))), tm.not_(tm.eq(a1, tm.num(0))))
+        if twin:
+            nonideal = tm.not_(tm.eq(a0, tm.num(0)))
+        names = [e.name.split("::")[-1] for e in evs if e.name.split("::")[-1] in ("ss_binary", "ss_ideal")]
+        for hy, ni in CM.cases(list(s.pc), nonideal):
+            want = ["ss_binary"] if ni else ["ss_ideal"]
+            ok = names == want and all(e.args[0] is ssp for e in evs if e.name.split("::")[-1] in ("ss_binary", "ss_ideal"))
+            r.add("solid_solution.%s[path %d]" % ("non_zero_Guggenheim_parameter_uses_the_binary_model" if ni else "a0==a1==0_is_ideal", nd), DISCHARGED if ok else FAILED, "trace", 0, repr(names))
+    r.add("reach.dispatch", DISCHARGED if nd >= 2 else UNDECIDED, "symex", 0, str(nd), kind="vacuity")
+    # nothing is skipped while a solid-solution unknown exists
+    fnw, exw, finw, infow = U.run_function(MODEL, "Phreeqc::calc_ss_fractions", modes={0: "havoc", 1: "havoc", 2: "havoc"}, ctx=mkctx())
+    ne = 0
+    for s in finw:
+        if s.status != "ret":
+            continue
+        entered = any(all(p in s.pc for p in e.pc) for e in infow["entry"].get(0, []))
+        if not entered:
+            ne += 1
+            ssu = tm.select(exw.heap_arr(s, ("f", "ss_unknown", "P")), THIS)
+            asm = [e for e in s.events if e.name.endswith("Get_ss_assemblage_ptr")]
+            cond = tm.eq(ssu, tm.NULL)
+            if asm:
+                cond = tm.or_(cond, tm.eq(asm[-1].result, tm.NULL))
+            if twin:
+                cond = tm.not_(tm.eq(ssu, tm.NULL))
+            U.discharge_valid(r, "early_return.only_without_solid_solution_unknown_or_assemblage#%d" % ne, list(s.pc), cond)
+    r.add("reach.early_returns", DISCHARGED if ne >= 2 else UNDECIDED, "symex", 0, str(ne), kind="vacuity")
     # lemma: the fractions sum to one:  sum_k (x_k / n) = (sum_k x_k) / n = n / n = 1  (n = sum_k x_k by the first loop, n > 0)
     x1, x2, x3 = tm.sym("x1", "R"), tm.sym("x2", "R"), tm.sym("x3", "R")
     nn = x1 + x2 + x3
